@@ -211,9 +211,13 @@ def coq_o(v):
     return 'None' if v is None else '(Some %s)' % zlit(v)
 
 
+def coq_mk_ip(a):
+    """the Address construction (res addr): refuses ports outside 0..65535"""
+    return '(mk_ip %d %d %d %d %s)' % (tuple(a[1]) + (zlit(a[2] if a[0] == 'ip' else a[3]),))
+
+
 def coq_addr(a):
-    if a[0] == 'ip': return '(ip_addr %d %d %d %d %s)' % (tuple(a[1]) + (zlit(a[2]),))
-    if a[0] == 'ipmask': return '(ip_addr %d %d %d %d %s)' % (tuple(a[1]) + (zlit(a[3]),))
+    if a[0] in ('ip', 'ipmask'): return '(addr_val %s)' % coq_mk_ip(a)
     if a[0] == 'raw': return '(ABytes %s)' % nlist(a[1])
     if a[0] == 'none': return 'ANone'
     return 'ANoBytes'
@@ -246,6 +250,18 @@ def coq_msg(m):
     raise ValueError(m)
 
 
+def spec_addrs(m):
+    """address specs of a message in the order build_msg constructs them"""
+    k = m[0]
+    if k in ('wbdt', 'rbdtack', 'rfdtack'): return [e[0] for e in m[1]]
+    if k in ('fwd', 'delfdt'): return [m[1]]
+    return []
+
+
+def coq_constructions(*msgs):
+    return '[' + ';'.join(coq_mk_ip(a) for m in msgs if m for a in spec_addrs(m) if a[0] in ('ip', 'ipmask')) + ']'
+
+
 def jdesc(m):
     """JSON-able, short description of a message spec"""
     def j(x):
@@ -269,16 +285,16 @@ def param_octets(m):
 def case_enc(m, kind='enc', ctor=None):
     exp = impl_encode(m, ctor)
     if ctor is None:
-        coq = 'canon_encode %s' % coq_msg(m)
+        coq = 'canon_build_encode %s %s' % (coq_constructions(m), coq_msg(m))
     else:
-        coq = 'canon_encode_with (ctor_len %s) %s' % (coq_msg(ctor), coq_msg(m))
+        coq = 'canon_build_encode_with %s (ctor_len %s) %s' % (coq_constructions(ctor, m), coq_msg(ctor), coq_msg(m))
     return Case(kind, coq, exp, key=('enc', repr(m), repr(ctor)), nontrivial=param_octets(m) >= 1 or exp[0] == 1,
                 desc={'op': 'encode', 'msg': jdesc(m), 'ctor': jdesc(ctor) if ctor else None})
 
 
 def case_ctor(m):
     exp = impl_ctor_len(m)
-    return Case('ctor-len', 'bres (fun n => [zN n]) (Ok (ctor_len %s))' % coq_msg(m), exp, key=('ctor', repr(m)),
+    return Case('ctor-len', 'canon_build_ctor_len %s %s' % (coq_constructions(m), coq_msg(m)), exp, key=('ctor', repr(m)),
                 nontrivial=param_octets(m) >= 1, desc={'op': 'ctor-len', 'msg': jdesc(m)})
 
 
